@@ -88,6 +88,12 @@ class BudgetExceeded(Exception):
     pass
 
 
+# wall-clock cap on shrinking one failure (Hypothesis' own cap is 5 minutes); after it the test body
+# returns at once, the shrinker settles on the smallest failing case seen so far
+SHRINK_BUDGET_QUICK = float(os.environ.get("VERIF_SHRINK_QUICK", "25"))
+SHRINK_BUDGET_THOROUGH = float(os.environ.get("VERIF_SHRINK_THOROUGH", "180"))
+
+
 @dataclass
 class Sub:
     name: str
@@ -123,6 +129,7 @@ class Ctx:
         self.budget_hit = False
         self._target_sig: str | None = None
         self._last: Violation | None = None
+        self._shrink_until: float | None = None
 
     # ---- accounting -----------------------------------------------------------------
     def count(self, n: int = 1) -> None:
@@ -191,9 +198,12 @@ class Ctx:
                 v.case = case
         if self._target_sig is None:
             self._target_sig = rest[0].sig()
+            self._shrink_until = time.time() + (SHRINK_BUDGET_QUICK if self.tier == "quick"
+                                                else SHRINK_BUDGET_THOROUGH)
         for v in rest:
             if v.sig() == self._target_sig:
-                self._last = v
+                if self._last is None or len(canon(v.case)) <= len(canon(self._last.case)):
+                    self._last = v
                 raise Found(v)
         # a different root cause showed up while shrinking: record, do not steer
         for v in rest:
@@ -203,6 +213,7 @@ class Ctx:
         """Run a @given test; on failure store the (shrunk) violation."""
         self._target_sig = None
         self._last = None
+        self._shrink_until = None
         try:
             test()
         except Found as f:
@@ -268,8 +279,11 @@ def given_run(ctx: Ctx, strategy, body: Callable, *, max_examples: int, tag: str
     @hyp_settings(max_examples, shrink=shrink)
     @given(strategy)
     def test(case):
-        if ctx.out_of_time() and ctx._target_sig is None:
-            raise BudgetExceeded
+        if ctx._target_sig is None:
+            if ctx.out_of_time():
+                raise BudgetExceeded
+        elif ctx._shrink_until is not None and time.time() > ctx._shrink_until:
+            return  # shrink budget used up: let the shrinker finish with what it has
         ctx.gen()
         body(case)
 
